@@ -96,7 +96,9 @@ example : (Fmt.uuid none).run (b! "123e4567-e89b-12d3-a456-426614174000") = true
 /-! ## parser-validated formats: the exported pattern = definition -/
 
 theorem c20_cidrv4_pattern : ∀ s, accepts Gen.pat_cidrv4 s = Fmt.cidrv4.run s := bisim_sound_full _ _ Gen.cert_cidrv4_ok
-/-- the validator after pending/C20-cidr.diff is modelled by the definition itself (tie: correspondence) -/
+/-- NOT a property theorem (round 4c, audit B LOW; dropped from THEOREMS): `Parsers.goCIDRv4` is the definition
+    itself by `def`, and the driver does not run it.  The validator theorem is `c20_cidrv4_netip`
+    (Proofs/C20Netip.lean: the transcription of netip.ParsePrefix the driver runs = the definition, all strings). -/
 theorem c20_cidrv4 : ∀ s, Parsers.goCIDRv4 s = Fmt.cidrv4.run s := fun _ => rfl
 example : Fmt.cidrv4.run (b! "10.0.0.0/8") = true ∧ Fmt.cidrv4.run (b! "10.0.0.0/33") = false ∧
     Fmt.cidrv4.run (b! "10.0.0.0/08") = false ∧ Fmt.cidrv4.run (b! "::ffff:1.2.3.4/120") = false := by decide
@@ -357,7 +359,8 @@ theorem c20_ipv6_pattern_witness : ¬ c20_ipv6_pattern_full := fun h =>
   absurd (h (b! "1:2:3:4:5:6:1.2.3.4")) (by rw [c20_ipv6_witnesses.2.2.2.2.1, c20_ipv6_witnesses.2.2.2.2.2]; decide)
 
 -- BEGIN validator side of IPv6 (netip.ParseAddr ∧ Is6 ∧ no zone since pending/C20-ipv6.diff)
-/-- the validator is modelled by the definition itself (netip's address syntax is RFC 4291 §2.2; tie: correspondence) -/
+/-- NOT a property theorem (dropped from THEOREMS, round 4c): a definitional alias the driver does not run; the
+    validator theorem is `c20_ipv6_netip` (Proofs/C20Netip6.lean). -/
 theorem c20_ipv6 : ∀ s, Parsers.goIPv6 s = Fmt.ipv6.run s := fun _ => rfl
 -- END validator side of IPv6
 
@@ -370,7 +373,8 @@ theorem c20_cidrv6_pattern_witnesses :
 theorem c20_cidrv6_pattern_witness : ¬ c20_cidrv6_pattern_full := fun h =>
   absurd (h (b! "1:2:3:4:5:6:1.2.3.4/64")) (by rw [c20_cidrv6_pattern_witnesses.2.2.2.2.1, c20_cidrv6_pattern_witnesses.2.2.2.2.2]; decide)
 
-/-- the CIDRv6 validator (netip.ParsePrefix ∧ Is6) is modelled by the definition itself (tie: correspondence) -/
+/-- NOT a property theorem (dropped from THEOREMS, round 4c): a definitional alias the driver does not run; the
+    validator theorem is `c20_cidrv6_netip` (Proofs/C20Netip6.lean). -/
 theorem c20_cidrv6 : ∀ s, Parsers.goCIDRv6 s = Fmt.cidrv6.run s := fun _ => rfl
 
 /-! ## option-taking constructors
